@@ -154,10 +154,21 @@ SCENARIOS = [
 LAYOUT = [("scalar", 0, 1), ("vector", 1, 3), ("scalar", 4, 1)]
 
 
-def check_map(run, tree, aspects=("slots", "rendered", "geometry", "inputs"), depth_axis=0):
+def thorough_scenarios():
+    """thin/thick x every ordered pair of layer operations x the forms of the resolution dict"""
+    import itertools
+    out = []
+    for thick in (False, True):
+        for a, b in itertools.permutations(("mean", "sum", "nansum", "max", "min"), 2):
+            for reso in ([{"x": 8, "y": 6}] if not thick else [{"x": 8, "y": 6}, {"x": 8, "y": 6, "z": 4}]):
+                out.append(("%s map, operations %s/%s, resolution %s" % ("thick" if thick else "thin", a, b, sorted(reso)), thick, (a, b), reso))
+    return out
+
+
+def check_map(run, tree, aspects=("slots", "rendered", "geometry", "inputs"), depth_axis=0, scenarios=None):
     fi = tree.func(MAP)
     run.analysed(fi)
-    for label, thick, ops, reso in SCENARIOS:
+    for label, thick, ops, reso in (scenarios or SCENARIOS):
         layer_ops = [ops[0], ops[1], "max"]
         try:
             reso_in = dict(reso)
